@@ -66,7 +66,7 @@ def build_and_run(si, durs, pairs, flavour, std, nrandom, dropped):
     src = os.path.join(d, f"s{si}.cc")
     exe = os.path.join(d, f"s{si}.exe")
     durs, pairs = list(durs), list(pairs)
-    for attempt in range(3):
+    for attempt in range(12):
         core.write(src, emit_tu(durs, pairs))
         rc, se = core.build(src, exe, flavour, std=std)
         if rc == 0:
